@@ -48,6 +48,24 @@ ASSUMPTIONS = [
     'sample rate and amplitudes are powers of two in the sampling cases so that float division is exact',
 ]
 
+GEN_FILE = os.path.join(vlib.COQ, 'C20', 'Gen_performance.v')
+KERNELS = ['_is_monotonic_numba', '_shrink_overlapping_windows_numba']
+
+
+def pregen(ctx):
+    import sys
+    sys.path.insert(0, os.path.join(vlib.VERIF, 'translate'))
+    import py2gallina_c20
+    name = 'translate:qupulse/utils/performance.py::' + '+'.join(KERNELS)
+    try:
+        txt = py2gallina_c20.translate_functions(os.path.join(vlib.REPO, 'qupulse/utils/performance.py'), KERNELS)
+        txt = txt.replace(vlib.REPO, '/repo')
+        vlib.write_if_changed(GEN_FILE, txt + '\n')
+        return [{'name': name, 'ok': True, 'detail': 'translated'}]
+    except Exception as e:   # Unsupported, SyntaxError, ...
+        return [{'name': name, 'ok': False, 'detail': 'translator refused the current source: %s' % e}]
+
+
 CHN = {'A': 1, 'B': 2, 'M': 3, 'N': 4, 0: 0, 'Z': 9}       # channel ids -> Z for the model
 
 
